@@ -17,7 +17,9 @@ def run (_tag : String) (kv : KV) : String :=
     sec := if kv.getD "psec" "none" = "static" then .static else .none
     advMux := boolOf (kv.getD "padv" "1")
     noAuto := boolOf (kv.getD "pnoauto" "0") }
-  match compose Facts.interop Facts.handshake hc pc with
+  let v := if kv.getD "pproto" "netrpc" = "legacy" then composeLegacy Facts.interop Facts.handshake hc pc.sec
+           else compose Facts.interop Facts.handshake hc pc
+  match v with
   | .works => "works"
   | .startErr .mux => "starterr sentinel=mux"
   | .startErr _ => "starterr sentinel=none"
